@@ -16,8 +16,22 @@ import hashlib
 EPS = 1e-6
 
 
+def type_key(t) -> str:
+    return 'PinnedWire6' if t == 6 else f'E{t}'
+
+
+def pattern_key(pat) -> str:
+    if pat == '*':
+        return '*'
+    if isinstance(pat, int):
+        return 'P6' if pat == 6 else f'E{pat}'
+    return pat
+
+
 def pat_matches(pat, t: int) -> bool:
-    return pat == '*' or pat == t or pat == f'E{t}'
+    """Subscriptions are filed by name: a class pattern is shorthand for the class __name__, and an event is looked
+    up by the event_type it carries (for a class that pins its event_type those two differ)."""
+    return pat == '*' or pattern_key(pat) == type_key(t)
 
 
 class Index:
@@ -541,12 +555,8 @@ def c07(ix: Index) -> None:
             ix.v('C07', 'reach-set', None, ev=ev, entry=entry, want=sorted(reach), got=sorted(got))
         for b, n in counts.items():
             if n != 1:
-                mech = None
-                # F17: two forward registrations src->b both selected inside one process_event of src
                 fw = [r for r in ix.enq_ok if r['ev'] == ev and r['bus'] == b and r['by'] == 'F']
-                if len(fw) >= 2 and any(d == b for (_a, d) in dup_pairs):
-                    mech = 'F17'
-                ix.v('C07', 'processed-count', mech, ev=ev, bus=b, n=n)
+                ix.v('C07', 'processed-count', None, ev=ev, bus=b, n=n, forwarded_enqueues=len(fw), duplicate_route=any(d == b for (_a, d) in dup_pairs))
         path = fin.get(ev, {}).get('path')
         want_path = [names[b] for _s, b, _by in firsts]
         if path != want_path:
@@ -1015,8 +1025,7 @@ def _pred_eval(ps, tag, default):
 
 
 def _c18_matches(spec, t, tag):
-    ty = spec['type']
-    if not (ty == t or ty == f'E{t}'):
+    if not pat_matches(spec['type'], t) or spec['type'] == '*':
         return False
     # library: include := orig_include(e) and predicate(e); then  include(e) and not exclude(e)
     inc = _pred_eval(spec.get('include'), tag, True)
@@ -1039,10 +1048,9 @@ def c18(ix: Index) -> None:
     rets = {r['call']: r for r in ix.R if r['k'] == 'exp_ret' and r['seq'] < ix.quiet_seq}
     static = collections.Counter()
     for h in ix.sc['handlers']:
-        key = '*' if h['pat'] == '*' else (f"E{h['pat']}" if isinstance(h['pat'], int) else h['pat'])
-        static[(h['bus'], key)] += 1
+        static[(h['bus'], pattern_key(h['pat']))] += 1
     for (a, _d, pat) in ix.sc.get('fwd', []):
-        static[(a, '*' if pat == '*' else (f'E{pat}' if isinstance(pat, int) else pat))] += 1
+        static[(a, pattern_key(pat))] += 1
     for c in calls:
         ix.C['c18_expects'] += 1
         spec, bus = c['spec'], c['bus']
